@@ -29,13 +29,18 @@ def model_check(ctx, mode):
             ctx.expect_mutant_violates("MTB", cfg(2, 2, 2, both, mutant=mut), "MTB mutant " + mut, timeout=900)
 
 
-def generate(ctx, mode, dims, maxfaults, vals, sample=None, maxops=2):
+def generate(ctx, mode, dims, maxfaults, vals, sample=None, maxops=2, simulate=None):
     """Behaviours: honest prefix (both modes, so holes occur) + one tested batch of `mode` with <= maxfaults deviations."""
     out = []
     for d, b in dims:
         other = "deletion" if mode == "insertion" else "insertion"
-        r = ctx.tlc("MTB", cfg(d, b, maxops, [mode, other], vals=vals, gen=True, maxfaults=maxfaults),
-                    label="MTB gen depth=%d batch=%d faults<=%d" % (d, b, maxfaults), timeout=3000, heap="24g")
+        if simulate:
+            # the space of behaviours with several independent deviations is too large to enumerate: seeded simulation
+            r = ctx.tlc("MTB", cfg(d, b, maxops, [mode, other], vals=vals, gen=True, maxfaults=maxfaults), simulate="num=%d" % (simulate // 4), depth=4 * (b + 2), workers=4,
+                        label="MTB simulate depth=%d batch=%d faults<=%d" % (d, b, maxfaults), timeout=3000)
+        else:
+            r = ctx.tlc("MTB", cfg(d, b, maxops, [mode, other], vals=vals, gen=True, maxfaults=maxfaults),
+                        label="MTB gen depth=%d batch=%d faults<=%d" % (d, b, maxfaults), timeout=3000, heap="24g")
         beh = [t for t in r["traces"] if t["ops"] and t["ops"][-1]["batch"]["mode"] == mode]
         if not beh:
             raise Infra("no behaviours generated for %s depth=%d batch=%d" % (mode, d, b))
